@@ -42,13 +42,20 @@ fn exhaustive(_t: Tier) -> Option<&'static str> {
 
 const OPS: [&str; 5] = ["add", "sub", "mul", "div", "axpy"];
 
+thread_local! {
+    static ALPHA: std::cell::Cell<f64> = std::cell::Cell::new(3.0);
+}
+fn alpha() -> f64 {
+    ALPHA.with(|a| a.get())
+}
+
 fn apply(op: &str, a: &Array, b: &Array) -> Array {
     match op {
         "add" => a + b,
         "sub" => a - b,
         "mul" => a * b,
         "div" => a / b,
-        _ => Array::axpy(3.0, a, b),
+        _ => Array::axpy(alpha() as corgi::numbers::Float, a, b),
     }
 }
 fn apply_ref(op: &str, a: &T<f64>, b: &T<f64>) -> Option<T<f64>> {
@@ -57,7 +64,10 @@ fn apply_ref(op: &str, a: &T<f64>, b: &T<f64>) -> Option<T<f64>> {
         "sub" => a.zip(b, |x, y| x - y),
         "mul" => a.zip(b, |x, y| x * y),
         "div" => a.zip(b, |x, y| x / y),
-        _ => a.zip(b, |x, y| 3.0 * x + y),
+        _ => {
+            let al = alpha();
+            a.zip(b, |x, y| al * x + y)
+        }
     }
 }
 
@@ -119,6 +129,10 @@ pub fn run_case(ctx: &mut Ctx, fam: &str, k: u64, r: &mut Rng) {
             vb = rand_ints(r, numel(&db), 1, 9);
         }
     }
+    // the grid uses alpha = 3; elsewhere alpha varies over values with likely shortcuts
+    ALPHA.with(|a| a.set(if fam == "grid" { 3.0 } else { *r.pick(&[0.0, 1.0, -1.0, 3.0, -2.0, 0.5]) }));
+    // divisors of either sign
+    let vb: Vec<f64> = if fam != "grid" && r.chance(1, 3) { vb.iter().map(|x| if r.chance(1, 2) { -*x } else { *x }).collect() } else { vb };
     let cls = pair_class(&da, &db);
     let desc = format!("{:?}x{:?}", da, db);
     ctx.case(&desc, da != db);
